@@ -457,7 +457,17 @@ func c04Verify(res *fw.Result, kindName, kind string, v any, wantDump string, te
 	}
 
 	// (3) streaming scanner reads the text back
-	objs, serr, span := xmlScan(text, 0)
+	// ... through a conforming but unhelpful reader (whole / one byte at a time / half of what
+	// was asked / random chunks / data together with io.EOF / zero-length reads in between),
+	// chosen by the text itself so that the case stays deterministic
+	mode := (len(text) + int(text[len(text)/2])) % len(xmlReaderModes)
+	res.Add("scanner_reader_"+xmlReaderModes[mode], 1)
+	withReader := map[string]any{"reader": xmlReaderModes[mode]}
+	for k, x := range detail {
+		withReader[k] = x
+	}
+	detail = withReader
+	objs, serr, span := xmlScanHostile(text, mode)
 	res.Event(int64(len(objs)))
 	switch {
 	case span != "":
@@ -825,6 +835,7 @@ func init() {
 			"parts marshalled on their own get encoding/xml's default document-element name (the Go type name); it is not judged, everything below it is; a by-value violation is reported only when the by-pointer form of the same input did not already report the same class",
 			"a create action whose OSM holds more than its one new element (further elements, bounds, changesets, notes, users) and header attributes on an action's OSM/Old/New are outside the documented action shape; one non-asserting probe case records what the library does with them (probe_* counters; on the current tree: all of these are lost, see notes/C04.md)",
 			"concurrent cases: marshalling is taken to be a function of its argument, so independent values marshalled at the same time must not influence each other and a data race with a library frame is a violation; the yields in the io.Writer only perturb the schedule",
+			"the scanner reads the marshalled text through a conforming but unhelpful io.Reader chosen by the text (whole, one byte at a time, half of the request, random chunks, last data together with io.EOF, zero-length reads with nil error in between); optional times are drawn from a small pool half of the time so that committed == timestamp, update timestamp == parent timestamp, closed_at == created_at, date_closed == date_created and equal times across objects are frequent (all times stay UTC, as the property's quantifier says)",
 			"the scanner comparison matches delivered objects to the value through the positions an independent tokenizer finds in the text; it is skipped for a text that already failed the vocabulary check",
 		},
 		Cases:   c04Cases,
